@@ -445,6 +445,18 @@ Theorem C20_ieee_first_rejected_sum :
    (is_finite (D.sub len mdfe) = true -> ~ (B2R d <= B2R len /\ B2R d < B2R (D.sub len mdfe))%R)).
 Proof. exact first_rejected_sum. Qed.
 Print Assumptions C20_ieee_first_rejected_sum.
+(* sharper bound for that sum: only its LAST addition can leave (0, len] *)
+Theorem C20_ieee_first_rejected_sum_step :
+  forall (len mdfe td : F64) (ds : list F64),
+  is_finite len = true -> is_finite td = true -> (0 < B2R td)%R -> dists_ok ops64 len mdfe td ds ->
+  let k := length ds in
+  let d := rsum ops64 td td k in
+  is_finite d = true ->
+  (Rabs (B2R d - INR (S k) * B2R td)
+     <= INR (Nat.pred k) * (/ 2 * ulp64 (B2R len))
+        + (match k with O => 0 | S _ => / 2 * ulp64 (B2R d) end))%R.
+Proof. exact first_rejected_sum_step. Qed.
+Print Assumptions C20_ieee_first_rejected_sum_step.
 
 (* (2) Tick times.  Source:  time = span_start + time_progress * dur  with
    time_progress = progress (forward span) or 1.0 - progress (reversed span).
